@@ -180,50 +180,42 @@ Proof. unfold version_of. intros ->. reflexivity. Qed.
 
 (* decoder agreement, by framing *)
 Lemma quick_agrees_parsed f l v e :
-  parse_packet f = Some (l, v) -> view_endpoints v = Some e -> loopback_mismatch f = false ->
-  quick_info f = Some e.
+  parse_packet f = Some (l, v) -> view_endpoints v = Some e -> quick_info f = Some e.
 Proof.
-  unfold loopback_mismatch. unfold parse_packet, quick_info.
+  unfold parse_packet, quick_info.
   destruct (try_ethernet_format f) as [v1|] eqn:Eeth.
-  { intros H; injection H as <- <-. intros Hv _. now rewrite (eth_some_quick _ _ _ Eeth Hv). }
+  { intros H; injection H as <- <-. intros Hv. now rewrite (eth_some_quick _ _ _ Eeth Hv). }
   rewrite (eth_none_quick _ Eeth).
   destruct (try_raw_ip_format f) as [v2|] eqn:Eraw.
-  { intros H; injection H as <- <-. intros Hv _. now rewrite (raw_some_quick _ _ _ Eraw Hv). }
+  { intros H; injection H as <- <-. intros Hv. now rewrite (raw_some_quick _ _ _ Eraw Hv). }
   destruct (try_null_format f) as [v3|] eqn:Enull; [|discriminate].
-  intros H; injection H as <- <-. intros Hv. cbn iota beta. rewrite Hv. cbn [is_some andb].
+  intros H; injection H as <- <-. intros Hv.
   revert Enull. unfold try_null_format.
   destruct (length f <? 24)%nat eqn:El; [discriminate|].
   destruct (byte_at f 0 =? 30) eqn:E0; [|discriminate].
   destruct (byte_at f 1 =? 0) eqn:E1; [|discriminate]. cbn [orb negb].
-  intros Enull Hk.
-  assert (Hfam : null_family f = 30 /\ exists ip, v3 = View6 ip).
-  { destruct (null_family f =? 30) eqn:Ef; [|discriminate].
-    split; [lia|]. destruct v3 as [ip|ip]; [discriminate|]. now exists ip. }
-  destruct Hfam as (Hfam & ip & ->).
+  intros Enull.
   assert (Hver : version_of f = 1) by (apply null_sig_version; lia).
-  unfold quick_raw_ip. rewrite Hver. cbn [N.eqb].
+  unfold quick_raw_ip. rewrite Hver.
   change (1 =? 4) with false. change (1 =? 6) with false. cbn iota.
-  unfold quick_null. rewrite Hfam.
+  unfold quick_null. rewrite E0, E1.
   destruct (length f <? 4)%nat eqn:E4; [lia|].
-  change (30 =? 2) with false. change (30 =? 30) with true. cbn [orb].
-  destruct (version_of (skipn 4 f) =? 4); [discriminate|].
-  destruct (version_of (skipn 4 f) =? 6); [|discriminate].
-  destruct (40 <=? length (skipn 4 f))%nat; [|discriminate].
-  injection Enull as <-. now apply view6_quick.
+  destruct (24 <=? length f)%nat eqn:E24; [|lia]. cbn [andb].
+  destruct (version_of (skipn 4 f) =? 4).
+  - injection Enull as <-. now apply view4_quick.
+  - destruct (version_of (skipn 4 f) =? 6); [|discriminate].
+    destruct (40 <=? length (skipn 4 f))%nat; [|discriminate].
+    injection Enull as <-. now apply view6_quick.
 Qed.
 
-Lemma quick_agrees f e :
-  analyzer_endpoints f = Some e -> loopback_mismatch f = false -> quick_info f = Some e.
+Lemma quick_agrees f e : analyzer_endpoints f = Some e -> quick_info f = Some e.
 Proof.
   unfold analyzer_endpoints. destruct (parse_packet f) as [[l v]|] eqn:Ep; [|discriminate].
-  intros Hv Hk. exact (quick_agrees_parsed f l v e Ep Hv Hk).
+  intros Hv. exact (quick_agrees_parsed f l v e Ep Hv).
 Qed.
 
-Lemma failopen_harmless f :
-  quick_info f = None -> analyzer_endpoints f = None \/ loopback_mismatch f = true.
+Lemma failopen_harmless f : quick_info f = None -> analyzer_endpoints f = None.
 Proof.
-  intros Hq. destruct (analyzer_endpoints f) as [e|] eqn:Ea; [|now left].
-  destruct (loopback_mismatch f) eqn:Ek; [now right|].
-  rewrite (quick_agrees f e Ea Ek) in Hq. discriminate.
+  intros Hq. destruct (analyzer_endpoints f) as [e|] eqn:Ea; [|reflexivity].
+  rewrite (quick_agrees f e Ea) in Hq. discriminate.
 Qed.
-
